@@ -420,7 +420,8 @@ PROPS.update({
 # ---------------------------------------------------------------- ObservableVector
 OVEC_TRUST = [KERNEL, EXTRACTION, CORR, IMBL,
               "tokio::sync::broadcast 1.53.1 modelled as a position-based log (capacity rounded up to a power of two, retains the last cap2 messages, Lagged moves the receiver to pos-cap2, Closed only after the buffer is drained, send wakes all waiting receivers); not verified",
-              "ReusableBoxFuture / the recv future modelled as 'poll = try_recv + register waiter'"]
+              "ReusableBoxFuture / the recv future modelled as 'poll = try_recv + register waiter'",
+              "hooks (cfg eyeball_verif, eyeball-im/src/verif.rs): a thread-local callback before each try_recv of the drain loops; assumed to add nothing but the callback's own effects"]
 
 
 def ovec_nontriv(case, obs):
@@ -431,6 +432,12 @@ def ovec_hist(case, obs):
     ops = case.split(" :: ")[1].split(" ; ")
     kinds = sorted({o.split("(")[0].split("[")[0] for o in ops if not o.startswith(("poll", "drain", "sub", "get"))})
     return case.split(" :: ")[0] + "/" + ("txn" if "tb" in ops else "direct") + "/" + ("lagged" if "Reset" in obs else "window") + "/" + (kinds[0] if len(kinds) == 1 else "mixed")
+
+
+def drain_hist(case, obs):
+    import re
+    used = re.findall(r" u=(\d+)", obs)
+    return case.split(" :: ")[0] + "/" + ("lagged" if "Reset" in obs else "window") + "/used<=%s" % (max(map(int, used)) if used else 0)
 
 
 def ovec_streams(kind, orc, project=None):
@@ -470,6 +477,17 @@ def ovec_streams(kind, orc, project=None):
         st.append(Stream("random", "ovec", gens.ovec_random(rng, n, lagbias=(kind in ("c06", "c08"))), ovec_nontriv, False,
                          "%d seeded random histories of 3..60 operations: all mutators (5%% out of range), entry traversals, transactions with rollbacks, up to 4 subscribers of both flavours created and dropped at any time, polls and drains, capacities 1..16%s" % (n, ", low poll rates" if kind in ("c06", "c08") else ""),
                          ovec_hist, oracles=orc, project=project))
+        if kind in ("c05", "c06", "c08"):
+            dorc = {"c05": {"app", "hist", "replica"},
+                    "c06": {"app", "hist", "replica", "uptodate", "lagreset", "nonempty"},
+                    "c08": {"app", "endalive", "final"}}[kind]
+            st.append(Stream("mid-drain", "drain", gens.drain_exhaustive((1, 2, 3) if q else (1, 2, 3, 4), 3 if q else 4), ovec_nontriv, True,
+                             "a subscriber 0..cap+2 messages behind is polled while the vector publishes BETWEEN the receive attempts of that one poll (forced through the drain points before each try_recv of the batched loop and of handle_lag): every combination of %d injections over 8 (nothing, 1-3 pushes, a 2-diff transaction, drop, pop+drop, clear) at capacities %s, plain and batched stream, then polled until quiet, then the vector dropped and the stream polled to its end; the number of drain points reached is compared with the model's" % ((3, "1,2,3") if q else (4, "1,2,3,4")),
+                             drain_hist, hook=True, oracles=dorc))
+            nd = 4000 if q else 100000
+            st.append(Stream("mid-drain-random", "drain", gens.drain_random(rng, nd), ovec_nontriv, False,
+                             "%d seeded random histories with up to 4 subscribers of both flavours in which 40%% of the polls race the vector: up to 4 injections of 0-3 operations each (all mutators, 4%% out of range, transactions, drop of the vector or of another subscriber), capacities 1..8" % nd,
+                             drain_hist, hook=True, oracles=dorc))
         nb = 150 if q else 6000
         st.append(Stream("random-big", "ovec", gens.ovec_random(rng, nb, maxops=25, big=True), ovec_nontriv, False,
                          "%d seeded random histories on vectors of 70..200 items (appends of up to 70, capacities 3..64): sizes beyond imbl's chunk size and beyond every small-scope bound" % nb,
@@ -479,19 +497,19 @@ def ovec_streams(kind, orc, project=None):
 
 
 PROPS.update({
-    "C05": dict(streams=ovec_streams("c05", {"stepwise", "count", "app", "replica", "endalive"}), trusted=OVEC_TRUST,
+    "C05": dict(streams=ovec_streams("c05", {"stepwise", "count", "app", "replica", "endalive"}), hook=True, trusted=OVEC_TRUST,
                 assumptions=["lag bounded by the capacity for the stepwise statement (the lagging case is C06)"],
                 level_text="Coq theorems over all histories (any interleaving of mutators, entry traversals, transactions, subscriptions of both flavours, polls, drops): every published diff is strictly applicable and takes the contents before the call to the contents after it; a direct call publishes exactly one diff, the documented no-ops none; a subscriber that never lagged has, at every Pending, received exactly the concatenation of everything published since it subscribed whatever the polling pattern and flavour, and its replica is the contents. Tied to vector.rs/subscriber.rs by exhaustive short histories and random long ones; the harness checks independently (with a plain Vec as shadow) that the replica passes through every state in order and that the number of delivered diffs is the number specified.",
                 level_note="Trusted: Coq kernel, extraction, harness, imbl::Vector as list, tokio broadcast as a position log."),
-    "C06": dict(streams=ovec_streams("c06", {"replica", "app", "lagreset", "resetcurrent", "batchcurrent"}), trusted=OVEC_TRUST,
-                assumptions=["the theorems interleave vector operations and polls at call granularity (the vector is !Sync: &mut self mutators); a vector moved to another thread that sends WHILE a poll drains the channel is exercised by the free-running writer-thread stream only"],
-                level_text="Coq theorems for every capacity, history and polling pattern: at every Pending the replica equals the contents; a Reset is delivered only to a receiver more than cap2 >= capacity messages behind, alone in its item, carrying the contents as of delivery; no delivered diff is ever inapplicable; every batched item catches up completely; the unreachable!()s, the expect() and the drain loops are safe. Proved through an inductive invariant (window clause, last-message clause, YieldBatch clause) over the history semantics. Tied to the crate by lag-focused exhaustive blocks around the rounded capacity and random low-poll-rate histories.",
+    "C06": dict(streams=ovec_streams("c06", {"replica", "app", "lagreset", "resetcurrent", "batchcurrent"}), hook=True, trusted=OVEC_TRUST,
+                assumptions=["vector operations interleave with polls at call granularity (OVec.v) and, for a vector moved to another thread, between the receive attempts of one poll (OVecDrain.v: every try_recv and send atomic, schedules forced on one thread through the drain points); memory ordering between real threads is exercised by the free-running writer-thread stream only"],
+                level_text="Coq theorems for every capacity, history and polling pattern: at every Pending the replica equals the contents; a Reset is delivered only to a receiver more than cap2 >= capacity messages behind, alone in its item, carrying the contents as of delivery; no delivered diff is ever inapplicable; every batched item catches up completely; the unreachable!()s, the expect() and the drain loops are safe; all of it also when the vector publishes or is dropped BETWEEN the receive attempts of one poll (lag detected in the middle of a drain: OVecDrain.v, the invariant is preserved by racing polls). Proved through an inductive invariant (window clause, last-message clause, YieldBatch clause) over the history semantics. Tied to the crate by lag-focused exhaustive blocks around the rounded capacity and random low-poll-rate histories.",
                 level_note="Trusted: as C05. The broadcast channel model is the main modelling risk; it is exercised at capacities 1, 2, 3, 5, 16."),
     "C07": dict(streams=ovec_streams("c07", {"replica", "count", "stepwise", "plain", "app"}), trusted=OVEC_TRUST,
                 assumptions=["no subscribe while a transaction is open (the transaction holds &mut ObservableVector)"],
                 level_text="Coq theorems: abandoning a transaction at any point (drop, rollback, drop after partial rollbacks; any body incl. panicking calls) returns exactly the state before it, so every later observation is as without it; before commit nothing is visible outside and the handle sees the working contents; commit installs the working contents and publishes at most one message holding the whole batch, which takes the old contents to the new ones; an empty batch publishes nothing; a batched subscriber's replica only ever equals contents at operation boundaries. Tied to transaction.rs by exhaustive transaction bodies with every way of ending them.",
                 level_note="Trusted: as C05."),
-    "C08": dict(streams=ovec_streams("c08", {"endalive", "final", "wake", "app"}), trusted=OVEC_TRUST,
+    "C08": dict(streams=ovec_streams("c08", {"endalive", "final", "wake", "app"}), hook=True, trusted=OVEC_TRUST,
                 assumptions=["as C06"],
                 level_text="Coq theorems for every capacity and polling pattern: a poll reports the end only after the vector is dropped, and then the replica equals the final contents - also for a subscriber lagged beyond capacity (after the repair of handle_lag's Closed arm) or in the middle of a batch; a Pending subscriber is registered and the drop wakes every registered subscriber. Tied to the crate by histories ending in drop + drain in all four lag situations.",
                 level_note="Trusted: as C05. Finding F2 (stale final state after lag + drop) was repaired in 0590f0c."),
